@@ -51,6 +51,9 @@ func (x *vc) loadInvariant(st *state, addr ssa.Value, v Val) {
 		if rg, ok := x.p.cons.fieldRange[fieldKey(a.X.Type(), a.Field)]; ok && v.T != "" {
 			x.assume(st.guard, and(app("<=", rg[0], v.T), app("<=", v.T, rg[1])))
 		}
+		if f := x.fieldPredFormula(st, fieldKey(a.X.Type(), a.Field), v); f != "" {
+			x.assume(st.guard, f)
+		}
 	case *ssa.IndexAddr:
 		var et types.Type
 		switch t := a.X.Type().Underlying().(type) {
@@ -98,6 +101,9 @@ func (x *vc) storeInvariant(fr *frame, st *state, addr ssa.Value, val ssa.Value,
 		}
 		if x.nn("field", k) {
 			x.oblige(st, "nonnil", "field", or(x.nonNilFormula(v), excuse), pos, "invariant: field "+k+" is never nil (except when the producing call returned an error)", true)
+		}
+		if f := x.fieldPredFormula(st, k, v); f != "" {
+			x.oblige(st, "fieldpred", "", or(f, excuse), pos, "invariant: "+x.p.cons.fieldPred[k]+"("+k+") holds for every stored value", true)
 		}
 	case *ssa.IndexAddr:
 		var et types.Type
